@@ -343,21 +343,60 @@ static void sqrtmp_fast_case(mpz_srcptr a, mpz_srcptr p, const char *cls) {
 	mpz_clear(r); mpz_clear(nqr); mpz_clear(pa1d4); mpz_clear(ps1d4); mpz_clear(pa3d8); mpz_clear(nq);
 }
 
-// p = 2 is prime and 1 is a residue; the 1 (mod 8) branch is entered with s = 0 and never leaves its first loop.
-// Observed in a child process with an alarm.
+// The prime 2 (guard added by fix 03c88a4: every residue is its own square root).  Before the fix the 1 (mod 8) branch was
+// entered with s = 0 and never left its first loop, so this block runs in a child process with an alarm: a child that does
+// not come back is reported as PROPFAIL (the records it printed so far are lost, the parent prints a "diverge" record).
+static void sqrt_p2_block() {
+	mpz_t r, a, p, q, n, g, u, v, bq, z, r1, r2, r3, r4;
+	mpz_init(r); mpz_init(a); mpz_init_set_ui(p, 2); mpz_init(q); mpz_init(n); mpz_init(g); mpz_init(u); mpz_init(v); mpz_init(bq); mpz_init(z);
+	mpz_init(r1); mpz_init(r2); mpz_init(r3); mpz_init(r4);
+	static const long AS[] = { 1, 0, 2, 3, 5, 8, -1, -2, 1000001 };
+	for (long ai : AS) {
+		mpz_set_si(a, ai);
+		for (int variant = 0; variant < 3; variant++) {
+			std::string o = guarded(r, [&]{
+				if (variant == 0) tmcg_mpz_sqrtmp(r, a, p);
+				else if (variant == 1) tmcg_mpz_sqrtmp_r(r, a, p);
+				else tmcg_mpz_sqrtmp_fast(r, a, p, z, z, z, z, z); });      // precomputations are not consulted for p = 2
+			if (variant < 2) Rec("sqrtmp").z(a).z(p).z(z).t(o);
+			if (!isnum(o) || !squares_to(r, a, p) || mpz_sgn(r) < 0 || mpz_cmp(r, p) >= 0)
+				propfail("sqrtmp-modulus-2", std::string("square root modulo the prime 2, variant ") + (variant == 0 ? "sqrtmp" : variant == 1 ? "sqrtmp_r" : "sqrtmp_fast") + ", a=" + hx(a) + " gives " + o);
+		}
+	}
+	// n = 2*q and q*2
+	static const unsigned long QS[] = { 3, 5, 7, 17, 41 };
+	for (unsigned long qv : QS) for (int swap = 0; swap < 2; swap++) for (unsigned long y = 1; y < 2 * qv; y += 1 + qv / 3) {
+		mpz_set_ui(q, qv); mpz_mul_ui(n, q, 2);
+		mpz_set_ui(a, y * y % (2 * qv)); if (mpz_sgn(a) == 0 || mpz_divisible_p(a, q)) continue;
+		mpz_srcptr P = swap ? q : p, Q = swap ? p : q;
+		mpz_gcdext(g, u, v, P, Q);
+		mpz_set_ui(bq, 0); if (qv % 4 == 1) smallest_nqr(bq, q);
+		std::string o = guarded(r, [&]{ tmcg_mpz_sqrtmn(r, a, P, Q, n); });
+		Rec("sqrtmn").z(a).z(P).z(Q).z(n).z(u).z(v).z(swap ? bq : z).z(swap ? z : bq).t(o);
+		if (!isnum(o) || !squares_to(r, a, n)) propfail("sqrtmn-modulus-2", "tmcg_mpz_sqrtmn(a=" + hx(a) + ",p=" + hx(P) + ",q=" + hx(Q) + ") = " + o + " does not square to a");
+		std::string o4;
+		try { tmcg_mpz_sqrtmn_all(r1, r2, r3, r4, a, P, Q, n); o4 = hx(r1) + "," + hx(r2) + "," + hx(r3) + "," + hx(r4); } catch (std::exception &e) { o4 = classify(e); }
+		Rec("sqrtmn_all").z(a).z(P).z(Q).z(n).z(u).z(v).z(swap ? bq : z).z(swap ? z : bq).t(o4);
+		if (o4.find(',') == o4.npos || !(squares_to(r1, a, n) && squares_to(r2, a, n) && squares_to(r3, a, n) && squares_to(r4, a, n)))
+			propfail("sqrtmn-modulus-2", "tmcg_mpz_sqrtmn_all(a=" + hx(a) + ",p=" + hx(P) + ",q=" + hx(Q) + ") = " + o4 + ": a root does not square to a");
+	}
+}
 static void sqrt_p2_probe() {
 	fflush(stdout);
 	pid_t pid = fork();
 	if (pid == 0) {
-		alarm(2);
-		mpz_t r, a, p; mpz_init(r); mpz_init_set_ui(a, 1); mpz_init_set_ui(p, 2);
-		try { tmcg_mpz_sqrtmp(r, a, p); } catch (...) { _exit(3); }
-		_exit(mpz_cmp_ui(r, 1) == 0 ? 0 : 4);
+		alarm(20);
+		sqrt_p2_block();
+		fflush(stdout);
+		_exit(0);
 	}
 	int st = 0; waitpid(pid, &st, 0);
-	std::string o = (WIFSIGNALED(st) && WTERMSIG(st) == SIGALRM) ? "diverge" : (WIFEXITED(st) && WEXITSTATUS(st) == 0 ? "1" : "other");
-	printf("REC sqrtmp 1 2 0 %s\n", o.c_str());
-	if (o != "1") propfail("sqrtmp-modulus-2", "tmcg_mpz_sqrtmp(a=1,p=2) does not return (no result after 2 s): the 1 (mod 8) branch is entered with s = 0");
+	if (!(WIFEXITED(st) && WEXITSTATUS(st) == 0)) {
+		printf("REC sqrtmp 1 2 0 diverge\n");
+		propfail("sqrtmp-modulus-2", (WIFSIGNALED(st) && WTERMSIG(st) == SIGALRM)
+			? "a square root modulo the prime 2 (tmcg_mpz_sqrtmp/_r/_fast, a in {1,0,2,3,...}) does not return within 20 s"
+			: "the block of square roots modulo the prime 2 ended abnormally");
+	}
 }
 
 static void section_sqrt(const Args &A) {
